@@ -169,6 +169,18 @@ func repair3Sections(r *vlib.Run) {
 			c.Undecided("harness.repair3.clean-not-manifold")
 			return
 		}
+		// a merge distance far below the resolution of the coordinates: no two vertices are that
+		// close, so the clean mesh comes back as it is
+		if rng.Intn(4) == 0 {
+			tiny := []float64{1e-17, 1e-19, 1e-25, 1e-60, 1e-100}[rng.Intn(5)]
+			o := meshOf(clean).Repair(tiny)
+			c.Count("repair3.epsilon_below_resolution", 1)
+			if eq, why := vlib.EqualCanonTris(vlib.CanonTris(clean), vlib.CanonTris(vlib.Tris(o))); !eq {
+				c.Violationf("model3d.Mesh.Repair/nothing-within-epsilon", map[string]interface{}{"mesh": desc, "epsilon": tiny},
+					"Repair(%g) changed a mesh whose vertices are at least %g apart: %s", tiny, dmin, why)
+				return
+			}
+		}
 		damaged, origOf, splits := splitVertices(rng, clean, eps, 0.6, chain)
 		sfx := ""
 		if chain {
